@@ -534,7 +534,8 @@ def verify_unit(target, enum_assign, opts=None):
     reset_fresh()
     ct = C.BY_NAME[target]
     fi = get_funcinfo(ct.func)
-    eng = Engine(safety=True, tolerant=False, axioms_fn=axioms_for)
+    eng = Engine(safety=True, tolerant=False, axioms_fn=axioms_for,
+                 feas_rlimit=int(os.environ.get('PYVC_FEAS_RLIMIT', ct.feas_rlimit or 200000)))
     eng.cur = fi
     eng.cur_contract = ct
     px = PathExec(eng)
@@ -592,7 +593,16 @@ def verify_unit(target, enum_assign, opts=None):
                 ph = Pure(eng, st2, henv, ct_globals(ct), True, TRUE, lineno)
                 import ast as _ast
                 for src in ct.post_hints:
-                    node = _ast.parse(src.strip()).body[0]
+                    src = src.strip()
+                    if src.startswith('assert '):
+                        # intermediate fact: proved (own obligation), then available to the clauses
+                        anode = _ast.parse(src[7:].strip(), mode='eval').body
+                        used = [n.id for n in _ast.walk(anode) if isinstance(n, _ast.Name) and n.id.startswith('g_')]
+                        if any(u not in henv for u in used):
+                            continue
+                        eng.oblig(st2, 'ghost', 'post-assert:%s' % src[7:].strip()[:40], ph.truthy(ph.ev(anode)), lineno)
+                        continue
+                    node = _ast.parse(src).body[0]
                     used = [n.id for n in _ast.walk(node) if isinstance(n, _ast.Name)
                             and isinstance(n.ctx, _ast.Load) and n.id.startswith('g_')]
                     if any(u not in henv for u in used):
@@ -670,6 +680,8 @@ def verify_unit(target, enum_assign, opts=None):
         out['obligations'].append(rec)
     out['wall_s'] = round(time.time() - t_start, 3)
     out['feasibility_checks'] = eng.nfeas
+    if opts.get('keep'):
+        out['_obs'] = eng.obligations      # development only (not serialisable)
     return out
 
 
